@@ -213,4 +213,21 @@ def streamReader (E : Bytes → Bytes) (bs : Nat) (st : St) (s : Stream) : Res S
   | .err => .err
   | .panic => .panic
 
+/-! ### the reading half of a `Conn`, and `SetCipher` in mid-stream (login flow) -/
+
+/-- A read program run through `Conn.Reader` BEFORE `SetCipher`; `socket` is what `Conn.Socket` will still
+deliver, the result is the program's outcome and what the socket will deliver afterwards.
+
+MODEL ASSUMPTION about `Conn.Reader`: until `SetCipher` it IS the socket — `WrapConn` and
+`Listener.Accept` set `Reader: conn` — with no buffering layer in between.  So a read program leaves in the
+socket exactly the bytes it did not consume (`Rd` programs built from `io.ReadFull`-style primitives ask
+for exactly the bytes they need).  A `bufio.Reader` there would break this: it may take more from the
+socket than the program consumes, and those bytes would not be in `socket` any more. -/
+def connRead {α : Type} (p : Rd α) (socket : Stream) : Res α × Stream := p socket
+
+/-- `Conn.SetCipher` as far as reading is concerned: `c.Reader = cipher.StreamReader{S: deco, R: c.Socket}`
+with a freshly created decrypter — every later delivery of the socket is decrypted -/
+def connSetCipher (E : Bytes → Bytes) (bs : Nat) (iv : Bytes) (socket : Stream) : Res Stream :=
+  streamReader E bs (newCFB8 iv) socket
+
 end GoMC.Model.CFB8
